@@ -3,7 +3,7 @@
    compared with what the SQL functions returned.  Subjects are ASCII (1 unit = 1 byte = 1 UTF-16 unit). *)
 From Coq Require Import List NArith Arith Bool.
 Import ListNotations.
-From GMS Require Import Sys.C33Regex.
+From GMS Require Import Sys.C33Regex Sys.C33Matcher.
 
 Definition str := list N.
 Fixpoint str_eqb (a b : str) : bool :=
@@ -13,15 +13,40 @@ Fixpoint str_eqb (a b : str) : bool :=
   | _, _ => false
   end.
 
+Definition tonat (l : list (N * N)) : list (nat * nat) := map (fun p => (N.to_nat (fst p), N.to_nat (snd p))) l.
+
 Record case := mkCase {
   subj : str; repl : str; pos : N; occ : N;
   locs1 : list (N * N);     (* matches reported from position 1 (offsets from the search start) *)
   locsp : list (N * N);     (* matches reported from position pos *)
   o_like : bool; o_instr0 : N; o_instr1 : N; o_substr : option str;
-  o_replk : str; o_repl0 : str
+  o_replk : str; o_repl0 : str;
+  pat : option re           (* the pattern as an AST when it lies in the subset of the reference matcher *)
 }.
 
-Definition tonat (l : list (N * N)) : list (nat * nat) := map (fun p => (N.to_nat (fst p), N.to_nat (snd p))) l.
+Fixpoint locs_eqb (a b : list (nat * nat)) : bool :=
+  match a, b with
+  | [], [] => true
+  | (x1, y1) :: a', (x2, y2) :: b' => Nat.eqb x1 x2 && Nat.eqb y1 y2 && locs_eqb a' b'
+  | _, _ => false
+  end.
+
+(* layer 2: the engine's matches from position 1 against the reference matcher: the first match always; the whole
+   list when the reference meets no empty match on the way *)
+Definition ref_ok (c : case) : bool :=
+  match pat c with
+  | None => true
+  | Some r =>
+      let obs := tonat (locs1 c) in
+      match find r (subj c), obs with
+      | None, [] => true
+      | Some (a, b), (a', b') :: _ => Nat.eqb a a' && Nat.eqb b b'
+      | _, _ => false
+      end &&
+      let '(l, complete) := find_all_from (S (length (subj c))) r [] (subj c) 0 in
+      if complete then locs_eqb l obs else true
+  end.
+
 
 (* ascending / non-overlapping / in bounds, decided *)
 Fixpoint wf_locsb (from n : nat) (l : list (nat * nat)) : bool :=
@@ -45,7 +70,8 @@ Definition ok (c : case) : bool :=
   | _, _ => false
   end &&
   str_eqb (replace_cgo N oracle (subj c) (repl c) p k) (o_replk c) &&
-  str_eqb (replace_cgo N oracle (subj c) (repl c) p 0) (o_repl0 c).
+  str_eqb (replace_cgo N oracle (subj c) (repl c) p 0) (o_repl0 c) &&
+  ref_ok c.
 
 Definition mismatches (cs : list (N * case)) : list N :=
   map fst (filter (fun p => negb (ok (snd p))) cs).
